@@ -1,7 +1,18 @@
 #![allow(clippy::too_many_arguments, clippy::type_complexity)]
 
 mod alloc;
+mod cmp;
+mod ctor;
+#[cfg(feature = "has-std")]
+mod io;
+mod nonint;
+mod zst;
+mod drain;
 mod engine;
+mod iters;
+mod faults;
+mod random;
+mod term;
 mod model;
 mod ops;
 mod sweep;
@@ -26,6 +37,11 @@ macro_rules! dispatch {
             6 => $($f)::+::<6, $p>($ctx),
             7 => $($f)::+::<7, $p>($ctx),
             8 => $($f)::+::<8, $p>($ctx),
+            9 => $($f)::+::<9, $p>($ctx),
+            10 => $($f)::+::<10, $p>($ctx),
+            16 => $($f)::+::<16, $p>($ctx),
+            61 => $($f)::+::<61, $p>($ctx),
+            1000 => $($f)::+::<1000, $p>($ctx),
             n => {
                 $ctx.notes.push(format!("capacity {} not instantiated for this workload", n));
             }
@@ -33,6 +49,55 @@ macro_rules! dispatch {
     };
 }
 pub(crate) use dispatch;
+
+macro_rules! dispatch1 {
+    ($n:expr, $($f:ident)::+, $ctx:expr) => {
+        match $n {
+            0 => $($f)::+::<0>($ctx),
+            1 => $($f)::+::<1>($ctx),
+            2 => $($f)::+::<2>($ctx),
+            3 => $($f)::+::<3>($ctx),
+            4 => $($f)::+::<4>($ctx),
+            5 => $($f)::+::<5>($ctx),
+            6 => $($f)::+::<6>($ctx),
+            7 => $($f)::+::<7>($ctx),
+            8 => $($f)::+::<8>($ctx),
+            16 => $($f)::+::<16>($ctx),
+            61 => $($f)::+::<61>($ctx),
+            1000 => $($f)::+::<1000>($ctx),
+            n => $ctx.notes.push(format!("capacity {} not instantiated for this workload", n)),
+        }
+    };
+}
+
+macro_rules! dispatch2_inner {
+    ($n:literal, $m:expr, $($f:ident)::+, $ctx:expr) => {
+        match $m {
+            0 => $($f)::+::<$n, 0>($ctx),
+            1 => $($f)::+::<$n, 1>($ctx),
+            2 => $($f)::+::<$n, 2>($ctx),
+            3 => $($f)::+::<$n, 3>($ctx),
+            4 => $($f)::+::<$n, 4>($ctx),
+            5 => $($f)::+::<$n, 5>($ctx),
+            6 => $($f)::+::<$n, 6>($ctx),
+            _ => {}
+        }
+    };
+}
+macro_rules! dispatch2 {
+    ($n:expr, $m:expr, $($f:ident)::+, $ctx:expr) => {
+        match $n {
+            0 => dispatch2_inner!(0, $m, $($f)::+, $ctx),
+            1 => dispatch2_inner!(1, $m, $($f)::+, $ctx),
+            2 => dispatch2_inner!(2, $m, $($f)::+, $ctx),
+            3 => dispatch2_inner!(3, $m, $($f)::+, $ctx),
+            4 => dispatch2_inner!(4, $m, $($f)::+, $ctx),
+            5 => dispatch2_inner!(5, $m, $($f)::+, $ctx),
+            6 => dispatch2_inner!(6, $m, $($f)::+, $ctx),
+            _ => {}
+        }
+    };
+}
 
 #[cfg(not(feature = "heaptok"))]
 type MainPad = ();
@@ -46,15 +111,106 @@ fn main() {
     let mut ctx = Ctx::new(args.clone());
     let ns = args.list("n", &[0, 1, 2, 3, 4]);
     let elem = args.get("elem").unwrap_or("tok").to_string();
+    let r = std::panic::catch_unwind(std::panic::AssertUnwindSafe(|| run(&args, &mut ctx, &ns, &elem)));
+    if r.is_err() {
+        let p = tok::take_last_panic();
+        eprintln!("HARNESS-ERROR: uncaught panic {:?} during case {}: {}", p, ctx.case_idx, ctx.cur_case);
+        std::process::exit(3);
+    }
+    ctx.emit(&args.workload, "");
+}
+
+fn run(args: &Args, ctx: &mut Ctx, ns: &[usize], elem: &str) {
     match args.workload.as_str() {
         "sweep" => {
-            for &n in &ns {
+            for &n in ns {
                 if elem == "wide" {
                     #[cfg(not(feature = "heaptok"))]
-                    dispatch!(n, tok::Pad32, sweep::sweep, &mut ctx);
+                    dispatch!(n, tok::Pad32, sweep::sweep, &mut *ctx);
                 } else {
-                    dispatch!(n, MainPad, sweep::sweep, &mut ctx);
+                    dispatch!(n, MainPad, sweep::sweep, &mut *ctx);
                 }
+            }
+        }
+        "random" => {
+            for &n in ns {
+                if elem == "wide" {
+                    #[cfg(not(feature = "heaptok"))]
+                    dispatch!(n, tok::Pad32, random::random, &mut *ctx);
+                } else {
+                    dispatch!(n, MainPad, random::random, &mut *ctx);
+                }
+            }
+        }
+        "nonint" => {
+            for &n in ns {
+                if elem == "wide" {
+                    #[cfg(not(feature = "heaptok"))]
+                    dispatch!(n, tok::Pad32, nonint::nonint, &mut *ctx);
+                } else {
+                    dispatch!(n, MainPad, nonint::nonint, &mut *ctx);
+                }
+            }
+        }
+        "ctor" => {
+            for &n in ns {
+                dispatch!(n, MainPad, ctor::ctor, &mut *ctx);
+            }
+        }
+        #[cfg(feature = "has-std")]
+        "io" => {
+            for &n in ns {
+                dispatch1!(n, io::io, &mut *ctx);
+            }
+        }
+        #[cfg(feature = "has-std")]
+        "io_random" => {
+            for &n in ns {
+                dispatch1!(n, io::io_random, &mut *ctx);
+            }
+        }
+        #[cfg(not(feature = "heaptok"))]
+        "cmp" => {
+            let top = ns.iter().copied().max().unwrap_or(0);
+            for n in 0..=top {
+                for m in 0..=top {
+                    dispatch2!(n, m, cmp::cmp_pair, &mut *ctx);
+                }
+                dispatch1!(n, cmp::cmp_misc, &mut *ctx);
+            }
+        }
+        "zst" => {
+            let which = args.list("z", &[0, 1, 2, 3, 4, 5, 6, 7, 8, 9, 10, 11]);
+            for w in which {
+                match w {
+                    0 => zst::zst::<{ usize::MAX }>(&mut *ctx),
+                    1 => zst::zst::<{ usize::MAX - 1 }>(&mut *ctx),
+                    2 => zst::zst::<{ (1usize << 63) + 1 }>(&mut *ctx),
+                    3 => zst::zst::<{ 1usize << 63 }>(&mut *ctx),
+                    4 => zst::zst::<{ (1usize << 63) - 1 }>(&mut *ctx),
+                    5 => zst::zst::<{ (1usize << 32) + 1 }>(&mut *ctx),
+                    6 => zst::zst::<{ 1usize << 32 }>(&mut *ctx),
+                    7 => zst::zst::<{ (1usize << 32) - 1 }>(&mut *ctx),
+                    8 => zst::zst::<65537>(&mut *ctx),
+                    9 => zst::zst::<3>(&mut *ctx),
+                    10 => zst::zst::<1>(&mut *ctx),
+                    _ => zst::zst::<0>(&mut *ctx),
+                }
+            }
+        }
+        "drain" => {
+            for &n in ns {
+                dispatch!(n, MainPad, drain::drain, &mut *ctx);
+            }
+        }
+        "iters" => {
+            for &n in ns {
+                dispatch!(n, MainPad, iters::iters, &mut *ctx);
+            }
+        }
+        "faults" => {
+            for &n in ns {
+                dispatch!(n, MainPad, faults::faults, &mut *ctx);
             }
         }
         w => {
@@ -62,5 +218,4 @@ fn main() {
             std::process::exit(3);
         }
     }
-    ctx.emit(&args.workload, "");
 }
